@@ -566,6 +566,50 @@ pub fn run(ctx: &Ctx) -> Outcome {
         }
     });
 
+    // 1b. zone-aware values stepped by whole days (UTC, where wall clock and instant coincide):
+    //     results landing exactly on MAX_UTC / MIN_UTC, one step beyond, and far inside
+    {
+        let mut loc = rep.local();
+        let (minn, maxn) = (NaiveDateTime::MIN, NaiveDateTime::MAX);
+        for n in [1u64, 2, 7, 30, 365, 366, 146_097, 1_000_000] {
+            for (base, fwd) in [(maxn, true), (minn, false)] {
+                for extra in [0u64, 1] {
+                    // start n days inside, step n (+extra) days towards the end
+                    let start = if fwd { base.checked_sub_days(Days::new(n)) } else { base.checked_add_days(Days::new(n)) };
+                    let Some(start) = start else { continue };
+                    let step = Days::new(n + extra);
+                    let dt = Utc.from_utc_datetime(&start);
+                    loc.eval();
+                    loc.bucket(x.z_add);
+                    let exp = if extra == 0 { Some(base) } else { None };
+                    if exp.is_none() {
+                        loc.bucket(x.z_none)
+                    }
+                    let name = if fwd { "DateTime<Utc>::checked_add_days" } else { "DateTime<Utc>::checked_sub_days" };
+                    match guard(|| if fwd { dt.checked_add_days(step) } else { dt.checked_sub_days(step) }) {
+                        Ok(g) => {
+                            if g.map(|v| v.naive_utc()) != exp {
+                                loc.violation(
+                                    &format!("C03/{}/{}", name, if exp.is_some() { "none-for-result-exactly-at-range-end" } else { "some-beyond-range-end" }),
+                                    json!({"start": format!("{:?}", start), "days": n + extra, "expected": format!("{:?}", exp), "observed": format!("{:?}", g.map(|v| v.naive_utc()))}),
+                                );
+                            }
+                            if let (Some(v), true) = (g, exp.is_some()) {
+                                if let Ok(o) = guard(|| if fwd { dt + step } else { dt - step }) {
+                                    if o != v {
+                                        loc.violation(&format!("C03/{}/operator-form-differs", name), json!({"start": format!("{:?}", start), "days": n}));
+                                    }
+                                }
+                            }
+                        }
+                        Err(p) => loc.violation(&format!("C03/{}/panic@{}", name, p.site()), json!({"start": format!("{:?}", start), "days": n + extra, "panic": p.to_json()})),
+                    }
+                    loc.nontrivial(h2(31, h2(n + extra, fwd as u64)));
+                }
+            }
+        }
+    }
+
     // 2. iterators: near both range ends (run to exhaustion) and from catalogue/random dates (bounded prefix)
     {
         let take = ctx.tier.pick(400usize, 4000usize);
